@@ -35,7 +35,12 @@ def resolve_history(seed, steps=14, solver=None, start=None):
     g.rn, g.cn, g.sense = list(lp["rname"]), list(lp["cname"]), list(lp["sense"])
     g.namectr = 100
     g.bnd = [[qstr(lp["lo"][j]), qstr(lp["up"][j])] for j in range(lp["n"])]
+    if lpfam.file_origin_ok(lp) and r.random() < .3:
+        for ln in lpfam.via_file_cmds("res_%s_%d" % (solver, seed)):
+            g.emit(ln)
     g.emit("dump h0")
+    if r.random() < .25:
+        g.emit("set_param h0 7 0")           # scaling off: the simplex runs on the problem as stored
     # dual steepest edge is the default; vary pricing sometimes
     if r.random() < .4:
         g.emit("set_param h0 2 %d" % r.choice([6, 7, 8, 9]))
@@ -70,6 +75,69 @@ def resolve_history(seed, steps=14, solver=None, start=None):
         g.emit(raw(dict(call="eq_answer", h="h0", h2="h1", props=["C05"])))
         if r.random() < .3:
             g.emit("binv h0")
+        g.emit("free h1")
+    g.emit("free h0")
+    return g.text()
+
+
+def first_edit_history(seed):
+    """C05 / C17: a problem READ FROM A FILE carries derived data the builders do not create (the row-wise copy of the matrix); every kind
+    of structural edit must invalidate it.  Read, make ONE kind of edit as the very first change (several columns / rows deleted at once,
+    a row / column added, a coefficient changed), solve directly with the simplex (scaling on or off), compare with a fresh copy solved
+    from scratch; then a second edit of another kind, compare again."""
+    g = api.Gen(seed, maxval=5)
+    r = g.r
+    solver = r.choice(["opt_dual", "opt_primal", "opt_dual", "opt_primal", "exact_dual"])
+    g.emit("scenario firstedit_%s_%d" % (solver, seed))
+    g.emit("handler on")
+    lp = lpfam.sparse_cover(r)
+    for ln in lpfam.load_cmd(lp):
+        g.emit(ln)
+    g.m, g.n = lp["m"], lp["n"]
+    g.rn, g.cn, g.sense = list(lp["rname"]), list(lp["cname"]), list(lp["sense"])
+    g.namectr = 100
+    g.bnd = [[qstr(lp["lo"][j]), qstr(lp["up"][j])] for j in range(lp["n"])]
+    fmt = r.choice(["MPS", "MPS", "LP"]) if False else "MPS"      # (LP would reorder the columns by first appearance)
+    for ln in lpfam.via_file_cmds("fe_%d" % seed):
+        g.emit(ln)
+    g.emit("dump h0")
+    if r.random() < .5:
+        g.emit("set_param h0 7 0")
+    if r.random() < .3:
+        g.emit(solve_cmd("h0", solver))
+        g.emit("sol h0")
+    kinds = ["del_cols", "del_cols", "del_rows", "add_row", "add_col", "change"]
+    r.shuffle(kinds)
+    for kind in kinds[:r.randint(2, 3)]:
+        if kind == "del_cols":
+            k = r.randint(2, min(6, g.n - 2))
+            idx = sorted(r.sample(range(g.n), k))
+            if r.random() < .5:
+                sh = idx[:]
+                r.shuffle(sh)
+                g.emit("delete_cols h0 %d %s" % (len(sh), " ".join(map(str, sh))))
+            else:
+                g.emit("delete_setcols h0 %d %s" % (g.n, " ".join("1" if i in idx else "0" for i in range(g.n))))
+            for i in reversed(idx):
+                del g.cn[i]
+                del g.bnd[i]
+            g.n -= len(idx)
+        elif kind == "del_rows":
+            g.op_del_rows()
+        elif kind == "add_row":
+            g.op_add_row()
+        elif kind == "add_col":
+            g.op_add_col()
+        else:
+            g.op_change()
+        g.emit("sol h0")
+        g.emit("dump h0")
+        g.emit("copy h1 h0 fresh")
+        g.emit(solve_cmd("h1", r.choice(["exact_primal", "exact_dual"])))
+        g.emit("sol h1")
+        g.emit(solve_cmd("h0", solver))
+        g.emit("sol h0")
+        g.emit(raw(dict(call="eq_answer", h="h0", h2="h1", props=["C05"])))
         g.emit("free h1")
     g.emit("free h0")
     return g.text()
